@@ -13,8 +13,12 @@ HARNESSES = [("h_store", "rel")]
 ASSUMPTIONS = [
     "histories are API-conformant: the harness answers SKIP when a documented precondition of a call is not met",
     "InmemStorageImpl stands for the key-value store (a batch is applied as a whole; a crash is modelled between batches)",
-    "C10 histories run with the default (huge) max-reorg settings, i.e. without finalization; save/reload of a "
-    "finalizing instance is exercised by C09",
+    "the random histories (every save placement) run with the default (huge) max-reorg settings; finalizing instances "
+    "are covered by the `late` (VBK window 12, preserve 6) and `btcfin` (BTC window 2016 = the asserted floor, preserve "
+    "0) histories, whose ALT tree does not finalize (transparency of ALT finalization is C09)",
+    "late payloads are delivered while everything they need is still in memory (a VTB whose endorsed block / BTC "
+    "connecting block has been deallocated is invalid on a finalizing instance but valid on a freshly loaded one that "
+    "has not finalized yet: finalization state is memory-only; that difference is C09 territory and not generated here)",
 ]
 META = {
     "text": "Theorems (Coq, ALL operation histories with saves at ALL positions; model coq/Store/SaveLoadDefs.v of the "
@@ -42,15 +46,30 @@ META = {
             "body-before-parent-body) and EVERY placement of up to 3 save points (sampled for long histories) a fresh "
             "instance loaded from a copy of the storage taken at each save equals the live instance (full observation "
             "of all three trees) and answers every later operation identically; with a save after every operation "
-            "every block whose persisted projection changed is dirty before the save.",
+            "every block whose persisted projection changed is dirty before the save. "
+            "Memory-only fields that load RECOMPUTES are part of the comparison: the accumulated chain work of every "
+            "VBK/BTC block (C10_chainwork_restored: load rebuilds it for every block of every consistent tree whatever the "
+            "bootstrap flags and insertion order; C10_chainwork_restart_at_bootstrap_refuted: the variant that restarts "
+            "the sum at BLOCK_BOOTSTRAP blocks, 2-block bootstrap chain). Histories run under bootstrap configurations "
+            "genesis-only and bootstrapWithChain (2-4 blocks) for VBK, BTC and both, with stale VBK/BTC forks branching "
+            "off interior bootstrap blocks. Finalizing (loaded) instances: C10_finalize_keeps_dirty_chain_blocks - for ANY "
+            "set of dirty blocks finalizeBlockImpl retains every dirty active-chain block, dirty, with its payload ids "
+            "(premise: no unsaved block on an outdated fork), C10_finalize_stop_at_first_clean_refuted for the walk that "
+            "stops at the first clean block; oracle: interleaved saves with LATE VTBs that re-dirty old saved VBK blocks "
+            "(new VTB id / containing endorsement) resp. old BTC blocks (new reference) just before they leave memory, in "
+            "the setState whose finalization moves the root; after every save nothing in memory is dirty, a fresh load "
+            "holds every block the live instance holds with identical lines, is cross-tree consistent (every VTB of an "
+            "active ALT block sits in a VBK block, its BTC block of proof is referenced at that height), and follows the "
+            "live instance (roll-back of the late block included); no unsaved block disappears between two operations.",
     "note": "Trusted: Coq kernel, extraction, OCaml driver (ocaml/Store_driver.ml), C++ harness (harness/h_store.cpp "
             "over harness/world.hpp), generators, the micro-op synthesis in props/_store.py (the model is driven by "
             "the observed per-op change of each ALT block; compared: status words and tip after every op, model dirty "
             "set within isDirty(), load result vs reloaded instance). Exclusions of the oracle are listed in the "
             "evidence (persisted_equivalence). Deleted blocks are not persisted state: a reloaded instance forgets the "
             "FAILED_BLOCK/FAILED_CHILD marks that deleteTemporarily keeps on removed blocks.",
-    "technique": "Coq proof (invariant over op histories) + extraction-based differential correspondence + "
-                 "save-point enumeration with reload/crash oracle",
+    "technique": "Coq proof (invariant over op histories; chain-work recovery; finalization vs dirty blocks) + "
+                 "extraction-based differential correspondence + save-point enumeration with reload/crash oracle over "
+                 "bootstrap configurations and finalizing instances with late payloads",
 }
 
 # small settlement intervals: endorsements at every distance up to and including the boundary are generated
@@ -62,6 +81,9 @@ CFG = {"alt_ki": 5, "alt_settle": 5, "payout_delay": 5, "payout_avg": 3, "vbk_se
 # window)
 CFG_LATE = {"alt_ki": 5, "alt_settle": 5, "payout_delay": 5, "payout_avg": 3, "vbk_settle": 6, "vbk_preserve": 6,
             "vbk_maxreorg": 12, "vbk_ki": 3}
+
+# BTC finalization: BtcChainParams::getMaxReorgBlocks asserts >= difficulty adjustment interval (2016 on regtest)
+CFG_BTCFIN = {"alt_ki": 5, "alt_settle": 5, "payout_delay": 5, "payout_avg": 3, "btc_maxreorg": 2016}
 
 # bootstrap configurations (blocks after genesis in the VBK / BTC bootstrap chain; 0 = bootstrapWithGenesis)
 BOOTS = [(0, 0), (3, 0), (0, 2), (2, 3), (4, 2)]
@@ -80,7 +102,12 @@ EQUIV = (
     "same values, deleted blocks are skipped by both getBlocks() and loadBlocksAndTip. Generator-level exclusion: a "
     "block that carried BLOCK_FAILED_BLOCK/BLOCK_FAILED_CHILD when it was removed is never re-added (the live "
     "instance remembers these marks on the deleted index, a reloaded one cannot: deleted blocks are skipped by "
-    "loadBlocksAndTip by design).")
+    "loadBlocksAndTip by design). The memory-only chainWork of every VBK/BTC block (rebuilt by loadBlockForward) is "
+    "part of the observation. Finalizing instances (`xdump fin`, props/_store.py diff_dumps_fin): the live and the "
+    "reloaded instance may hold different amounts of final history, so blocks both hold must have identical lines, "
+    "right after the load the reloaded one must hold every block of the live one, best tips equal, a tree with the same "
+    "root in both is compared completely; block-of-proof back pointers are not read (known finding "
+    "dangling-endorsement-backpointers), the finalized mark is memory-only.")
 
 
 # ---------------------------------------------------------------------------
@@ -348,11 +375,14 @@ def run(ctx):
     # ("hist", nsteps, kmax, limit, count): random histories x enumerated/sampled save placements, bootstrap
     #     configuration cycling through BOOTS (genesis only / bootstrapWithChain for VBK, BTC, both);
     # ("late", nblocks, count): loaded, finalizing instance (small VBK window), interleaved saves, late VTBs
+    #     (VBK finalization);  ("btcfin", 0, count): the same for BTC (reorg window 2016, nothing preserved)
     if quick:
-        plan = [("hist", 6, 3, 400, 6), ("hist", 9, 3, 400, 4), ("late", 34, 4), ("hist", 22, 3, 70, 8), ("hist", 40, 2, 60, 4)]
+        plan = [("hist", 6, 3, 400, 6), ("hist", 9, 3, 400, 4), ("late", 34, 5), ("btcfin", 0, 2), ("hist", 22, 3, 70, 8),
+                ("hist", 40, 2, 60, 4)]
     else:
-        plan = [("hist", 6, 3, 2000, 40), ("hist", 10, 3, 2000, 25), ("late", 40, 40), ("hist", 14, 3, 3000, 10),
-                ("hist", 25, 3, 400, 60), ("late", 70, 30), ("hist", 45, 3, 300, 40), ("hist", 80, 2, 200, 10)]
+        plan = [("hist", 6, 3, 2000, 40), ("hist", 10, 3, 2000, 25), ("late", 40, 40), ("btcfin", 0, 12),
+                ("hist", 14, 3, 3000, 10), ("hist", 25, 3, 400, 60), ("late", 70, 30), ("hist", 45, 3, 300, 40),
+                ("hist", 80, 2, 200, 10)]
     evaluations = 0
     distinct = set()
     exhaustive_hist = 0
@@ -363,12 +393,16 @@ def run(ctx):
         sc = S.Script()
         cases = {}
         gens = {}
-        if entry[0] == "late":
+        if entry[0] in ("late", "btcfin"):
             _, nblocks, count = entry
             for _ in range(count):
                 hist_no += 1
                 r = ctx.rng.fork()
-                g, ops, saves = S.gen_late(r, CFG_LATE, nblocks)
+                if entry[0] == "btcfin":
+                    g, ops, saves = S.gen_btcfin(r, CFG_BTCFIN)
+                    stats["btcfin_histories"] += 1
+                else:
+                    g, ops, saves = S.gen_late(r, CFG_LATE, nblocks)
                 S.emit_registry(sc, g)
                 S.emit_placement(sc, ops, [], saves, (hist_no, 0), fin=True)
                 cases[(hist_no, 0)] = (list(g.lines), ops, [], saves, True)
@@ -379,7 +413,7 @@ def run(ctx):
                 stats["late_saves"] += len(saves)
                 stats["late_vtbs_delivered_late"] += sum(1 for a in g.alt.values() if a["vtbs"] and any(
                     g.vbk[g.vtb[w]["containing"]]["height"] + 8 < max(g.vbk[v]["height"] for v in a["kv"]) for w in a["vtbs"]))
-            nsteps = "late%d" % nblocks
+            nsteps = "%s%d" % (entry[0], nblocks)
         else:
             _, nsteps, kmax, limit, count = entry
             for _ in range(count):
